@@ -61,6 +61,6 @@ def check(ctx: Ctx) -> None:
     n1, d1 = judge_sinks(ctx, eng, "NK1")
     # tokens that embed a tick value: rest length and note value
     n2, d2 = judge_sinks(ctx, eng, "NK2", only_funcs=["MultiTrackLargeVocabularyNotelikeTokeniser.tokenise"], prefixes={"REST", "VALUE"})
-    ctx.floor("time sinks", n1, 33)
-    ctx.floor("time sinks determined", d1, 30)
+    ctx.floor("time sinks", n1, 24)
+    ctx.floor("time sinks determined", d1, 22)
     ctx.floor("tick-bearing token fields (rest value, note value)", n2, 2)       # one REST field, one or two formattings of the note value
